@@ -59,6 +59,8 @@ def enc_markov(mo):
 def gen_treebank(rng, kmax=5, nmax=8, disc=True, repeat=True, words=None):
     """1..kmax trees; repeated subtrees/trees so that counts exceed 1; repeated sibling labels"""
     ts = []
+    if repeat and rng.random() < 0.25:
+        return context_variants(rng)
     k = rng.randint(1, kmax)
     labels = rng.choice([["S", "VP", "NP"], ["A", "B"], treegen.PLAIN_LABELS])
     for _ in range(k):
@@ -79,6 +81,34 @@ def gen_treebank(rng, kmax=5, nmax=8, disc=True, repeat=True, words=None):
         t.data['sid'] = len(ts) + 1
         ts.append(t)
     return ts
+
+
+def context_variants(rng):
+    """the same subtree (hence the same rules) under a parent of one label that is continuous in one
+    sentence and discontinuous in another, and under a differently labelled parent: vertical contexts
+    that differ only in a fan-out, or only in a label"""
+    from impl import mk_leaf, mk_node
+    k = rng.randint(2, 4)
+    labs = [rng.choice(["DT", "JJ", "NN", "NE"]) for _ in range(k)]
+
+    def sub(offset):
+        kids = [mk_leaf(offset + i + 1, labs[i], "w%d" % i, "--", "--", "--") for i in range(k)]
+        return mk_node("NP", kids, edge="--", lemma="--", morph="--")
+    out = []
+    for variant in rng.sample(["cont", "disc", "other", "cont"], rng.randint(2, 4)):
+        x = sub(0)
+        if variant == "cont":
+            p = mk_node("VP", [x, mk_leaf(k + 1, "VB", "v", "--", "--", "--")], edge="--", lemma="--", morph="--")
+            root = mk_node("VROOT", [p], edge="--", lemma="--", morph="--")
+        elif variant == "disc":
+            p = mk_node("VP", [x, mk_leaf(k + 2, "VB", "v", "--", "--", "--")], edge="--", lemma="--", morph="--")
+            root = mk_node("VROOT", [p, mk_leaf(k + 1, "RB", "r", "--", "--", "--")], edge="--", lemma="--", morph="--")
+        else:
+            p = mk_node("PP", [mk_leaf(1, "IN", "i", "--", "--", "--"), sub(1)], edge="--", lemma="--", morph="--")
+            root = mk_node("VROOT", [p], edge="--", lemma="--", morph="--")
+        root.data['sid'] = len(out) + 1
+        out.append(root)
+    return out
 
 
 def extract_all(ts):
